@@ -580,6 +580,13 @@ func guardedAccesses(fn *ssa.Function, guarded map[*types.Var]bool) []guardedAcc
 					out = append(out, guardedAccess{x, f, true, "delete"})
 				} else if isBuiltinCall(&x.Call, "len") {
 					out = append(out, guardedAccess{x, f, false, "len"})
+				} else if _, isB := x.Call.Value.(*ssa.Builtin); !isB {
+					// the map (or one of its buckets) is handed to a callee that will read it: the lock must be held across the call
+					for _, a := range x.Call.Args {
+						if a == v {
+							out = append(out, guardedAccess{x, f, false, "map passed to " + calleeName(&x.Call)})
+						}
+					}
 				}
 			case *ssa.IndexAddr:
 				if x.X == v {
